@@ -66,7 +66,15 @@ let () =
        let sv = List.fold_left (fun acc u -> if starts_with "sv=" u then acc @ ints_of_csv (String.sub u 3 (String.length u - 3)) else acc) [] units in
        (* effective options from the C line: "C rot=R tries=T ch=C dl=D | table" *)
        let get key = List.fold_left (fun acc t -> if starts_with (key ^ "=") t then int_of_string (String.sub t (String.length key + 1) (String.length t - String.length key - 1)) else acc) 0 (split_on ' ' cline) in
-       let rot = get "rot" = 1 and tries = get "tries" and chance = get "ch" and delay = get "dl" in
+       let rot = get "rot" = 1 and tries = get "tries" and eff_chance = get "ch" and eff_delay = get "dl" in
+       (* the failover options are the CONFIGURED ones (units ch= / dl=; library defaults 10 / 5000 ms when the
+          option is not passed): retry chance 0 disables probing, the retry delay is the configured one *)
+       let unit_int key = List.fold_left (fun acc u -> if starts_with (key ^ "=") u then int_of_string_opt (String.sub u (String.length key + 1) (String.length u - String.length key - 1)) else acc) None units in
+       let chance, delay = match unit_int "ch" with
+         | Some c when c >= 0 -> (c, (match unit_int "dl" with Some d -> d | None -> 0))
+         | _ -> (10, 5000) in
+       if (eff_chance, eff_delay) <> (chance, delay) then
+         add_fail "option-ignored" (Printf.sprintf "configured server failover options chance=%d delay=%d ms, but the channel uses chance=%d delay=%d ms" chance delay eff_chance eff_delay);
        let ch = ref (init_chan (List.map zi sv) rot (zi tries) (zi chance) (zi delay) (zi 100000, zi 0)) in
        let mon = ref (Some (mon_init (List.map zi sv) rot)) in
        let bmon = ref (Some (bmon_init (List.map zi sv) (zi tries))) in
@@ -277,6 +285,8 @@ let () =
          List.iter (fun (_, _, f) -> if f > !max_fail then max_fail := f) it;
          (* probe liveness: healthy first attempt, the draw says probe, a failed server is past its
             retry time with no probe in flight, yet no probe was transmitted *)
+         if chance = 0 && List.exists (function OTx (_, _, true) -> true | _ -> false) iobs then
+           add_fail "probe-unexpected" (Printf.sprintf "event %s: a probe copy was sent although the configured retry chance is 0 (probing disabled); table [%s]" u table);
          if (u = "q" || u = "p") && not (List.mem "PF" recs) then begin
            match r2s, choose_server rot (zi (match r1s with x :: _ -> x | [] -> 0)) pre.ch_servers with
            | r2 :: _, Some s when iz s.sv_fail = 0 && chance <> 0 && r2 mod chance = 0 ->
